@@ -12,6 +12,7 @@ import (
 	"net/http"
 	"sort"
 	"strings"
+	"unsafe"
 
 	mcp "trpc.group/trpc-go/trpc-mcp-go"
 	"verif.local/engine/memnet"
@@ -38,7 +39,7 @@ func init() { mcp.SetDefaultLogger(Nop{}) }
 type Flag struct{ v bool }
 
 //go:norace
-func (f *Flag) Set() { f.v = true }
+func (f *Flag) Set() { vsched.YieldObj("flag.set", uintptr(unsafe.Pointer(f)), true); f.v = true }
 
 //go:norace
 func (f *Flag) Get() bool { return f.v }
@@ -49,13 +50,13 @@ func (f *Flag) Ready() bool { return f.v }
 // Wait blocks the calling controlled thread until the flag is set.
 //
 //go:norace
-func (f *Flag) Wait(what string) { vsched.Block(what, f) }
+func (f *Flag) Wait(what string) { vsched.BlockObj(what, f, uintptr(unsafe.Pointer(f)), false) }
 
 // Counter is an int shared between controlled threads without happens-before edges.
 type Counter struct{ n int }
 
 //go:norace
-func (c *Counter) Inc() int { c.n++; return c.n }
+func (c *Counter) Inc() int { vsched.YieldObj("counter.inc", uintptr(unsafe.Pointer(c)), true); c.n++; return c.n }
 
 //go:norace
 func (c *Counter) Get() int { return c.n }
@@ -73,7 +74,9 @@ func (a AtLeast) Ready() bool { return a.C.n >= a.N }
 type Log struct{ items []string }
 
 //go:norace
-func (l *Log) Add(format string, a ...interface{}) { l.items = append(l.items, fmt.Sprintf(format, a...)) }
+func (l *Log) Add(format string, a ...interface{}) {
+	l.items = append(l.items, fmt.Sprintf(format, a...))
+}
 
 //go:norace
 func (l *Log) Items() []string { return append([]string(nil), l.items...) }
